@@ -2,6 +2,7 @@
 
 from __future__ import annotations
 
+import http
 import itertools
 import math
 import re
@@ -43,10 +44,21 @@ META = {
     "min_outcomes": {"quick": 8},
 }
 
-CORE = ["absent", None, True, False, 0, 1, 200, 400, 401, 403, 404, 408, 409, 422, 429, 499, 500,
+class _Code(int):
+    """A plain int subclass (how several client libraries type their status codes)."""
+
+    def __repr__(self):
+        return f"_Code({int(self)})"
+
+
+INT_SUBCLASSES = [http.HTTPStatus.UNAUTHORIZED, http.HTTPStatus.TOO_MANY_REQUESTS,
+                  http.HTTPStatus.SERVICE_UNAVAILABLE, http.HTTPStatus.CONFLICT, http.HTTPStatus.OK,
+                  _Code(403), _Code(408), _Code(404)]
+
+CORE = INT_SUBCLASSES + ["absent", None, True, False, 0, 1, 200, 400, 401, 403, 404, 408, 409, 422, 429, 499, 500,
         503, 599, 600, -500, 2 ** 64, 10 ** 400, 429.0, math.nan, "429", "", b"429", (429,), [500],
         {}, "OBJ"]
-CORE_SMALL = ["absent", None, True, 0, 200, 401, 404, 409, 429, 503, 600, 10 ** 400, 429.0,
+CORE_SMALL = INT_SUBCLASSES[:6] + ["absent", None, True, 0, 200, 401, 404, 409, 429, 503, 600, 10 ** 400, 429.0,
               math.nan, "429", "", b"429", [500], {"a": 1}, {429}, bytearray(b"x"), "OBJ"]
 
 MAP = {401: "AUTH", 403: "PERMISSION", 400: "PERMANENT", 404: "PERMANENT", 422: "PERMANENT",
@@ -298,13 +310,16 @@ def cases(clf, tier):
         for sh in ARG_SHAPES:
             yield {"args": sh}
     if clf in ("default", "strict", "optional"):
+        for v in INT_SUBCLASSES:
+            yield {"status": v}
+            yield {"code": v}
         for v in ints + [2 ** 64, 10 ** 400, 10 ** 5000]:
             yield {"status": v}
             yield {"code": v}
         for a, b in itertools.product(core, core):
             yield {"status": a, "code": b}
     elif clf == "http":
-        for v in ints + [2 ** 64, 10 ** 400]:
+        for v in INT_SUBCLASSES + ints + [2 ** 64, 10 ** 400]:
             for attr in ("status", "status_code", "code"):
                 yield {attr: v}
             yield {"args": (v,)}
